@@ -19,6 +19,8 @@ MODULES = {
     "C09": "harness.rewrite",
     "C10": "harness.intervals",
     "C11": "harness.rewrite",
+    "C12": "harness.asm",
+    "C13": "harness.asm",
     "C14": "harness.dwarf",
     "C16": "harness.abi_cpu",
     "C17": "harness.calls",
